@@ -55,20 +55,46 @@ def sstatusOfName (s : String) : Option SStatus :=
   else if s == "StatusError" then some .error else if s == "StatusCancel" then some .cancel
   else if s == "StatusSuccess" then some .success else none
 
-def overallOf (c : Cfg) (s : State) : List (List String) → Option SStatus
+/-- the first statement of `Status` since fix 6076232: the recorded outcome wins -/
+def outcomeRow : String := "if outcome, ok := sc.getOutcome(); ok { return outcome }"
+
+/-- the cascade proper (rows after the outcome row) -/
+def cascadeOf (c : Cfg) (s : State) : List (List String) → Option SStatus
   | [] => none
   | [cond, res] :: rest =>
     match cascadeCond c s cond with
     | some true => sstatusOfName res
-    | some false => overallOf c s rest
+    | some false => cascadeOf c s rest
     | none => none
   | _ :: _ => none
 
-theorem overallOf_canon (c : Cfg) (s : State) :
-    overallOf c s Canon.Sched.statusCascade = some (overall c s) := by
-  simp only [Canon.Sched.statusCascade, overallOf, cascadeCond, overall]
+/-- interpretation of the extracted `Status` table: an outcome row first, then the cascade -/
+def overallOf (c : Cfg) (s : State) : List (List String) → Option SStatus
+  | [cond, res] :: rest =>
+    if cond == "?" && res == outcomeRow then
+      (match s.atWait with
+       | some o => some o
+       | none => cascadeOf c s rest)
+    else none
+  | _ => none
+
+theorem cascadeOf_canon (c : Cfg) (s : State) :
+    cascadeOf c s (Canon.Sched.statusCascade.drop 1) = some (overall c s) := by
+  simp only [Canon.Sched.statusCascade, List.drop, cascadeOf, cascadeCond, overall]
   cases hc : (s.canceled && !allSucc c s) <;> cases hr : anyRunning c s <;> cases he : s.lastErr <;>
     simp_all [sstatusOfName] <;> decide
+
+theorem canon_head : Canon.Sched.statusCascade.head? = some ["?", outcomeRow] := by decide
+
+theorem overallOf_canon (c : Cfg) (s : State) :
+    overallOf c s Canon.Sched.statusCascade = some (reported c s) := by
+  have hsplit : Canon.Sched.statusCascade = ["?", outcomeRow] :: Canon.Sched.statusCascade.drop 1 := by decide
+  rw [hsplit]
+  have hq : (("?" : String) == "?" && outcomeRow == outcomeRow) = true := by decide
+  simp only [overallOf, hq, if_true, reported]
+  cases ha : s.atWait with
+  | some o => rfl
+  | none => exact cascadeOf_canon c s
 
 def handlerOfName (s : String) : Option (Option Handler) :=
   if s == "" then some none
